@@ -74,14 +74,14 @@ pub open spec fn doms_present(t: STree, m: Map<String, GraphColoredVertices>) ->
 
 // ---- the canonical key (contract of get_canonical_and_renaming as seen by the evaluator)
 pub uninterp spec fn canon_str(s: Seq<char>) -> Seq<char>;
-pub uninterp spec fn canon_map(s: Seq<char>) -> Map<Seq<char>, Seq<char>>;
+pub uninterp spec fn canon_map(s: Seq<char>) -> IMap<Seq<char>, Seq<char>>;
 pub open spec fn wc_key(p: Seq<char>) -> Seq<char> { "%"@ + p + "%"@ }
 // ASSUMED here (facts about the scanner canonize_subform on rendered trees; see unit canon):
 //  K1a  a wild-card proposition with a plain label is its own canonical form and has no variables
 //  K1b  only a wild-card proposition has a canonical form of that shape
 pub axiom fn axiom_canon_wild(p: Seq<char>)
     requires plain_name(p)
-    ensures canon_str(wc_key(p)) == wc_key(p), canon_map(wc_key(p)) == Map::<Seq<char>, Seq<char>>::empty();
+    ensures canon_str(wc_key(p)) == wc_key(p), canon_map(wc_key(p)) == IMap::<Seq<char>, Seq<char>>::empty();
 pub axiom fn axiom_canon_not_wild(t: STree, p: Seq<char>)
     requires names_ok(t), canon_str(render(t)) == wc_key(p)
     ensures t == STree::Term(SAtom::Wild(p));
@@ -104,11 +104,58 @@ pub proof fn lemma_wc_key_inj(p: Seq<char>, q: Seq<char>)
 pub open spec fn is_wc_key(k: FormulaWithDomains, p: Seq<char>) -> bool {
     k.0@ == wc_key(p) && k.1@ == Map::<String, Option<String>>::empty()
 }
+// names of a preprocessed tree: the quantifier at nesting depth d is named x^d, variables refer to enclosing quantifiers
+pub open spec fn canonical_names(t: STree, d: nat) -> bool decreases t {
+    match t {
+        STree::Term(SAtom::Var(x)) => exists|i: nat| 1 <= i <= d && x == xs(i),
+        STree::Term(_) => true,
+        STree::Un(_, c) => canonical_names(*c, d),
+        STree::Bin(_, a, b) => canonical_names(*a, d) && canonical_names(*b, d),
+        STree::Hyb(op, x, dd, c) =>
+            if op is Jump { (exists|i: nat| 1 <= i <= d && x == xs(i)) && canonical_names(*c, d) }
+            else { x == xs(d + 1) && canonical_names(*c, d + 1) },
+    }
+}
+pub open spec fn tree_pre(t: STree) -> bool { names_ok(t) && exists|d: nat| canonical_names(t, d) }
+pub open spec fn small(m: IMap<Seq<char>, Seq<char>>) -> bool { forall|x: Seq<char>, y: Seq<char>| m.contains_key(x) && m.contains_key(y) ==> x == y }
+pub open spec fn is_wild_tree(t: STree) -> bool { t matches STree::Term(SAtom::Wild(_)) }
+// ASSUMED (soundness of canonical keys, i.e. the "only if" direction of property C09, in its semantic form):
+// two preprocessed trees with the same canonical text have renamings of the same shape, and (for at most one
+// variable name) their semantics differ exactly by moving that variable's slot
+pub axiom fn axiom_key_sound(t: STree, n: STree, l: ISet<Pt>)
+    requires tree_pre(t), tree_pre(n), canon_str(render(t)) == canon_str(render(n)), small(canon_map(render(t)))
+    ensures
+        small(canon_map(render(n))),
+        is_wild_tree(t) == is_wild_tree(n),
+        (forall|a: Seq<char>| !canon_map(render(t)).contains_key(a)) <==> (forall|b: Seq<char>| !canon_map(render(n)).contains_key(b)),
+        (forall|a: Seq<char>| !canon_map(render(t)).contains_key(a)) ==> sem(n, l) == sem(t, l),
+        forall|a: Seq<char>, b: Seq<char>| #![trigger canon_map(render(t)).contains_key(a), canon_map(render(n)).contains_key(b)]
+            canon_map(render(t)).contains_key(a) && canon_map(render(n)).contains_key(b) ==> (
+                canon_map(render(t))[a] == canon_map(render(n))[b] && valid_name(a) && valid_name(b)
+                && (a == b <==> slot_name(a) == slot_name(b))
+                && (forall|p: Pt| shaped(p) ==> (sem(n, l).contains(p) <==> #[trigger] sem(t, l).contains(with_slot(p, slot_name(a), p.e[slot_name(b)])))));
+// a cached value: either a wild-card proposition (raw user set) or the result of a sub-formula, valid inside the
+// unit set `w` of the graph it was computed on
+pub open spec fn entry_wild(k: FormulaWithDomains, v: (GraphColoredVertices, VarRenameMap)) -> bool {
+    exists|p: Seq<char>| is_wc_key(k, p) && gv(&v.0) == wc_set(p) && wc_set(p).subset_of(base_unit()) && v.1@ == Map::<String, String>::empty()
+}
+pub open spec fn witness_ok(k: FormulaWithDomains, v: (GraphColoredVertices, VarRenameMap), l: ISet<Pt>, t: STree, w: ISet<Pt>) -> bool {
+    &&& k.0@ == canon_str(render(t))
+    &&& tree_pre(t) && !is_wild_tree(t)
+    &&& mview(v.1@) == canon_map(render(t)) && small(canon_map(render(t)))
+    &&& agree(gv(&v.0), sem(t, l), w) && gv(&v.0).subset_of(base_unit())
+}
+pub open spec fn entry_formula(k: FormulaWithDomains, v: (GraphColoredVertices, VarRenameMap), l: ISet<Pt>) -> bool {
+    exists|t: STree, w: ISet<Pt>| witness_ok(k, v, l, t, w)
+}
+pub open spec fn dup_ok(k: FormulaWithDomains) -> bool {
+    (exists|p: Seq<char>| is_wc_key(k, p))
+    || (exists|t0: STree| k.0@ == canon_str(render(t0)) && tree_pre(t0) && !is_wild_tree(t0) && small(canon_map(render(t0))))
+}
 #[verifier::opaque]
-pub open spec fn ctx_inv(c: EvalContext) -> bool {
-    &&& forall|k: FormulaWithDomains| #[trigger] c.duplicates@.contains_key(k) ==> c.duplicates@[k] >= 1 && exists|p: Seq<char>| is_wc_key(k, p)
-    &&& forall|k: FormulaWithDomains| #[trigger] c.cache@.contains_key(k) ==> exists|p: Seq<char>| is_wc_key(k, p) && gv(&c.cache@[k].0) == wc_set(p)
-            && wc_set(p).subset_of(base_unit()) && c.cache@[k].1@ == Map::<String, String>::empty()
+pub open spec fn ctx_inv(c: EvalContext, l: ISet<Pt>) -> bool {
+    &&& forall|k: FormulaWithDomains| #[trigger] c.duplicates@.contains_key(k) ==> c.duplicates@[k] >= 1 && dup_ok(k)
+    &&& forall|k: FormulaWithDomains| #[trigger] c.cache@.contains_key(k) ==> entry_wild(k, c.cache@[k]) || entry_formula(k, c.cache@[k], l)
     &&& forall|d: String| #[trigger] c.domain_raw_sets@.contains_key(d) ==> gv(&c.domain_raw_sets@[d]) == wc_set(d@) && env_indep(wc_set(d@))
 }
 // the wild-card p can still be served n times from the cache
@@ -159,9 +206,9 @@ pub proof fn lemma_loops_total(g: &SymbolicAsyncGraph)
 pub open spec fn same_core(a: EvalContext, b: EvalContext) -> bool {
     a.duplicates == b.duplicates && a.cache == b.cache && a.domain_raw_sets == b.domain_raw_sets
 }
-pub proof fn lemma_core_inv(a: EvalContext, b: EvalContext)
+pub proof fn lemma_core_inv(a: EvalContext, b: EvalContext, l: ISet<Pt>)
     requires same_core(a, b)
-    ensures ctx_inv(a) == ctx_inv(b)
+    ensures ctx_inv(a, l) == ctx_inv(b, l)
 {
     reveal(ctx_inv);
 }
@@ -265,4 +312,129 @@ pub proof fn lemma_budget_seq(c0: EvalContext, c1: EvalContext, c2: EvalContext,
         assert(has_wc(c0, p, (n + occ(tr, p)) + occ(tl, p)));
         assert(has_wc(c1, p, n + occ(tr, p)));
     }
+}
+
+// ---- the cache-hit path: renaming of the (at most one) variable of a cached result
+// `rn` = set computed by substitute_hctl_var(graph, S, a, b); ka / kb the slots of a / b
+pub open spec fn subst_set(g: &SymbolicAsyncGraph, s0: ISet<Pt>, same: bool, ka: int, kb: int) -> ISet<Pt> {
+    if same { s0 } else { proj_slot(s0.intersect(comparator_slots(g, ka, kb)), ka) }
+}
+pub proof fn lemma_hit_rename(g: &SymbolicAsyncGraph, s0: ISet<Pt>, st: ISet<Pt>, sn: ISet<Pt>, w: ISet<Pt>, same: bool, ka: int, kb: int)
+    requires
+        gok(g), 0 <= ka < dim_k(), 0 <= kb < dim_k(), same <==> ka == kb,
+        agree(s0, st, w), s0.subset_of(base_unit()),
+        forall|p: Pt| shaped(p) ==> (sn.contains(p) <==> #[trigger] st.contains(with_slot(p, ka, p.e[kb]))),
+        !same ==> slot_free(g, ka),                                                                   // fails for defect D8
+        forall|p: Pt| unit_of(g).contains(p) ==> #[trigger] w.contains(with_slot(p, ka, p.e[kb])),    // fails for defect D5
+    ensures ok(g, subst_set(g, s0, same, ka, kb), sn)
+{
+    reveal(ok); reveal(gok); reveal(wf_graph);
+    let u = unit_of(g);
+    let r = subst_set(g, s0, same, ka, kb);
+    assert forall|p: Pt| u.contains(p) implies (r.contains(p) <==> sn.contains(p)) by {
+        let qs = with_slot(p, ka, p.e[kb]);
+        lemma_shaped_with_slot(p, ka, p.e[kb]);
+        lemma_agree_pt(s0, st, w, qs);
+        if same {
+            assert(qs.e =~= p.e);
+            assert(qs == p);
+        } else {
+            assert(u.contains(qs));
+            assert(qs.e[kb] == p.e[kb]);
+            assert(eq_slots(qs, ka, kb));
+            if r.contains(p) {
+                let q = choose|q: Pt| s0.intersect(comparator_slots(g, ka, kb)).contains(q) && differ_slot(p, q, ka);
+                assert(shaped(q));
+                lemma_differ_slot_is_with_slot(p, q, ka);
+                assert(q.e[kb] =~= p.e[kb]);
+                assert(q.e[ka] =~= q.e[kb]);
+                assert(q == qs);
+            }
+            if sn.contains(p) {
+                assert(s0.intersect(comparator_slots(g, ka, kb)).contains(qs));
+            }
+        }
+    }
+    lemma_agree_intro(r, sn, u);
+    if !same { lemma_proj_slot_in_base(s0.intersect(comparator_slots(g, ka, kb)), ka); }
+}
+pub proof fn lemma_hit_closed(g: &SymbolicAsyncGraph, s0: ISet<Pt>, st: ISet<Pt>, w: ISet<Pt>)
+    requires
+        agree(s0, st, w), s0.subset_of(base_unit()),
+        unit_of(g).subset_of(w),                                                                      // fails for defect D5
+    ensures ok(g, s0, st)
+{
+    reveal(ok);
+    assert forall|p: Pt| unit_of(g).contains(p) implies (s0.contains(p) <==> st.contains(p)) by { lemma_agree_pt(s0, st, w, p); }
+    lemma_agree_intro(s0, st, unit_of(g));
+}
+pub proof fn lemma_small_strings(m: Map<String, String>)
+    requires small(mview(m))
+    ensures forall|x: String, y: String| m.contains_key(x) && m.contains_key(y) ==> x == y
+{
+    assert forall|x: String, y: String| m.contains_key(x) && m.contains_key(y) implies x == y by {
+        lemma_mview_key(m, x); lemma_mview_key(m, y);
+        axiom_string_ext(x, y);
+    }
+}
+// everything the hit path knows about the cached witness `wt` and the current formula `t` (carried through the loops)
+pub open spec fn hit_facts(l: ISet<Pt>, t: STree, wt: STree, ww: ISet<Pt>, has_var: bool, va: Seq<char>, vb: Seq<char>, ka: int, kb: int, s0: ISet<Pt>) -> bool {
+    let cmt = canon_map(render(wt));
+    let cmn = canon_map(render(t));
+    &&& has_var == (exists|a: Seq<char>| cmt.contains_key(a))
+    &&& small(cmt) && small(cmn)
+    &&& ka == slot_name(va) && kb == slot_name(vb)
+    &&& agree(s0, sem(wt, l), ww) && s0.subset_of(base_unit())
+    &&& !has_var ==> sem(t, l) == sem(wt, l) && (forall|b: Seq<char>| !cmn.contains_key(b))
+    &&& has_var ==> (cmt.contains_key(va) && cmn.contains_key(vb) && cmt[va] == cmn[vb] && valid_name(va) && valid_name(vb) && (va == vb <==> ka == kb)
+            && (forall|p: Pt| shaped(p) ==> (sem(t, l).contains(p) <==> #[trigger] sem(wt, l).contains(with_slot(p, ka, p.e[kb])))))
+}
+// storing a (non wild-card) result does not touch the wild-card bookkeeping
+pub proof fn lemma_budget_grow(c0: EvalContext, c1: EvalContext, t: STree)
+    requires c1.duplicates@ == c0.duplicates@, forall|k: FormulaWithDomains| #[trigger] c0.cache@.contains_key(k) ==> c1.cache@.contains_key(k)
+    ensures budget_post(c0, c1, t), forall|u: STree| budget_pre(c0, u) ==> #[trigger] budget_pre(c1, u)
+{
+    reveal(budget_post); reveal(budget_pre);
+    assert forall|p: Seq<char>, n: int| #[trigger] has_wc(c0, p, n) implies has_wc(c1, p, n) by {
+        let k = choose|k: FormulaWithDomains| is_wc_key(k, p) && #[trigger] c0.duplicates@.contains_key(k) && c0.cache@.contains_key(k) && c0.duplicates@[k] >= n;
+        assert(c1.duplicates@.contains_key(k) && c1.cache@.contains_key(k));
+    }
+    assert forall|p: Seq<char>, n: int| n >= 1 && #[trigger] has_wc(c0, p, n + occ(t, p)) implies has_wc(c1, p, n) by {
+        lemma_has_wc_mono(c0, p, n + occ(t, p), n);
+    }
+    assert forall|u: STree| budget_pre(c0, u) implies #[trigger] budget_pre(c1, u) by {
+        assert forall|p: Seq<char>| occ(u, p) > 0 implies has_wc(c1, p, #[trigger] occ(u, p) as int) by {
+            assert(has_wc(c0, p, occ(u, p) as int));
+        }
+    }
+}
+pub proof fn lemma_budget_trans(c0: EvalContext, c1: EvalContext, c2: EvalContext, t: STree)
+    requires budget_post(c0, c1, t), c2.duplicates@ == c1.duplicates@, forall|k: FormulaWithDomains| #[trigger] c1.cache@.contains_key(k) ==> c2.cache@.contains_key(k)
+    ensures budget_post(c0, c2, t)
+{
+    reveal(budget_post);
+    assert forall|p: Seq<char>, n: int| n >= 1 && #[trigger] has_wc(c0, p, n + occ(t, p)) implies has_wc(c2, p, n) by {
+        assert(has_wc(c1, p, n));
+        let k = choose|k: FormulaWithDomains| is_wc_key(k, p) && #[trigger] c1.duplicates@.contains_key(k) && c1.cache@.contains_key(k) && c1.duplicates@[k] >= n;
+        assert(c2.duplicates@.contains_key(k) && c2.cache@.contains_key(k));
+    }
+}
+// a stored result is a valid cache entry
+pub proof fn lemma_store_entry(c1: EvalContext, c2: EvalContext, key: FormulaWithDomains, v: (GraphColoredVertices, VarRenameMap), l: ISet<Pt>, t: STree, g: &SymbolicAsyncGraph)
+    requires
+        ctx_inv(c1, l), c2.duplicates@ == c1.duplicates@, c2.domain_raw_sets@ == c1.domain_raw_sets@, c2.cache@ == c1.cache@.insert(key, v),
+        key.0@ == canon_str(render(t)), tree_pre(t), !is_wild_tree(t), mview(v.1@) == canon_map(render(t)), small(canon_map(render(t))),
+        ok(g, gv(&v.0), sem(t, l)),
+    ensures ctx_inv(c2, l)
+{
+    reveal(ctx_inv); reveal(ok);
+    assert(witness_ok(key, v, l, t, unit_of(g)));
+    assert(entry_formula(key, v, l));
+}
+// the two facts about scopes that a cache hit relies on and that the cache key does NOT guarantee (defects D5 / D8)
+pub open spec fn hit_universe_ok(g: &SymbolicAsyncGraph, ww: ISet<Pt>, has_var: bool, ka: int, kb: int) -> bool {
+    if has_var { forall|p: Pt| unit_of(g).contains(p) ==> #[trigger] ww.contains(with_slot(p, ka, p.e[kb])) } else { unit_of(g).subset_of(ww) }
+}
+pub open spec fn hit_slot_ok(g: &SymbolicAsyncGraph, has_var: bool, va: Seq<char>, vb: Seq<char>, ka: int) -> bool {
+    has_var && va != vb ==> slot_free(g, ka)
 }
